@@ -75,3 +75,37 @@ func synthFace(runes []rune) *font.Face {
 	}
 	return font.NewFace(ft)
 }
+
+// synthFontBytes returns the bytes of a minimal font whose cmap covers exactly the given runes.
+func synthFontBytes(runes []rune) []byte {
+	rs := append([]rune(nil), runes...)
+	sort.Slice(rs, func(i, j int) bool { return rs[i] < rs[j] })
+	tables := []ot.Table{
+		{Tag: ot.MustNewTag("cmap"), Content: cmapFormat12(rs)},
+		{Tag: ot.MustNewTag("head"), Content: minimalHead()},
+		{Tag: ot.MustNewTag("maxp"), Content: minimalMaxp(len(rs) + 1)},
+	}
+	return ot.WriteTTF(tables)
+}
+
+// buildTTC assembles a TrueType collection from complete sfnt files (table offsets are made absolute).
+func buildTTC(fonts [][]byte) []byte {
+	n := len(fonts)
+	hdr := make([]byte, 12+4*n)
+	copy(hdr, "ttcf")
+	binary.BigEndian.PutUint32(hdr[4:], 0x00010000)
+	binary.BigEndian.PutUint32(hdr[8:], uint32(n))
+	out := hdr
+	for i, f := range fonts {
+		base := len(out)
+		binary.BigEndian.PutUint32(out[12+4*i:], uint32(base))
+		blob := append([]byte(nil), f...)
+		nt := int(binary.BigEndian.Uint16(blob[4:]))
+		for t := 0; t < nt; t++ {
+			p := 12 + 16*t + 8
+			binary.BigEndian.PutUint32(blob[p:], binary.BigEndian.Uint32(blob[p:])+uint32(base))
+		}
+		out = append(out, blob...)
+	}
+	return out
+}
